@@ -5,13 +5,16 @@
   `fwdChunkList` / `revChunkList` / `getInfo` / `reverseComplement` — and `FastaStream.write_scaffold`, as translated, run with these
   translated iterators, writes the model's bytes (`write_scaffold_with_source_iterators`).
 
-  About `buffer_size`.  Items 3–6 carry `1 ≤ bs` as the task states them.  The equalities themselves hold for EVERY `bs`
-  (the `…_any_bs` theorems, from which the stated ones follow): translated source and model do the same integer arithmetic.
-  What `1 ≤ bs` excludes is where that arithmetic is not Python's:
-    * `bs = 0`: Python raises `ZeroDivisionError` (`length // max_length`); `pyDiv _ 0 = 0` (`Int.fdiv`), so BOTH the translated
-      source and the model yield one chunk instead (an empty one for a gap; `sequence_bytes(info, start, start - 1)` for a fragment).
-      That is a gap of the translator's run-time (`pyDiv` is total), the same on both sides — not a difference between them.
-    * `bs < 0`: no exception in Python either; both sides follow Python: `1 + length // bs ≤ 0` chunks for a gap longer than `-bs`
+  About `buffer_size`.  Items 3–6 carry `1 ≤ bs` as the task states them.  The equalities themselves hold for every `bs ≠ 0`
+  (the `…_any_bs` theorems, from which the stated ones follow): there translated source and model do the same integer arithmetic.
+  What `1 ≤ bs` excludes:
+    * `bs = 0`: Python raises `ZeroDivisionError` (`length // max_length`, `(end - start) // max_length`), and so does the translated
+      source: a `//` with a non-literal divisor is translated to the CHECKED `PyRt.floorDiv` (the `…_zero_buffer` theorems:
+      `.error .zeroDiv`, before anything is yielded).  The MODEL does not: it divides with the total `pyDiv` (`pyDiv _ 0 = 0`,
+      `Int.fdiv`) and yields one chunk instead (an empty one for a gap; `sequence_bytes(info, start, start - 1)` for a fragment).
+      So at `bs = 0` source and model DIFFER (examples below), every equality with the model in this file carries `bs ≠ 0`
+      (or `1 ≤ bs`), and the model's `streamScaffold` says nothing about what Python does with `buffer_size = 0`.
+    * `bs < 0`: no exception in Python; both sides follow Python: `1 + length // bs ≤ 0` chunks for a gap longer than `-bs`
       (the gap silently vanishes from the output), see the examples.
 -/
 import AgpTpf.Proofs.ImpFasta
@@ -51,11 +54,12 @@ example : Gen.Imp.FastaIndex_get_info "zz".toList [("a".toList, { length := 8, f
 
 /-! ## 3. `get_gap_iter` -/
 
-/-- for every `buffer_size` (see the header for `bs ≤ 0`) -/
-theorem get_gap_iter_is_source_any_bs (g : Gap) (c : Nat) (bs : Int) :
+/-- for every `buffer_size` but 0 (see the header for `bs ≤ 0`) -/
+theorem get_gap_iter_is_source_any_bs (g : Gap) (c : Nat) (bs : Int) (hbs : bs ≠ 0) :
     Gen.Imp.FastaIndex_get_gap_iter_imp g [c] bs = .ok (C03.modelGapIter bs (.gap g) [c]) := by
   unfold Gen.Imp.FastaIndex_get_gap_iter_imp C03.modelGapIter gapChunkList
   dsimp only
+  simp only [PyRt.floorDiv, if_neg hbs, ImpFasta.R_ok_bind]
   rw [ImpFasta.rangeUp_zero, List.map_map, ← ImpFasta.mapM_ok]
   apply ImpFasta.generator_eq_mapM
   · first | rfl | (congr 1; omega)
@@ -64,14 +68,22 @@ theorem get_gap_iter_is_source_any_bs (g : Gap) (c : Nat) (bs : Int) :
     exact ImpFasta.yield_gap_congr acc c (by omega)
   · intro ys; rfl
 
+/-- `buffer_size = 0`: `ZeroDivisionError` (`length // max_length`), as in Python, before the first chunk -/
+theorem get_gap_iter_zero_buffer (g : Gap) (c : Nat) :
+    Gen.Imp.FastaIndex_get_gap_iter_imp g [c] 0 = .error .zeroDiv := by
+  unfold Gen.Imp.FastaIndex_get_gap_iter_imp
+  simp only [PyRt.floorDiv, if_true]
+  rfl
+
 /-- `get_gap_iter(gap, gap_character)` with a ONE-byte gap character (what `FastaStream` passes: `b"N"`) yields the model's chunks:
-    one `BytesIO` of `n` copies of the character per entry `n` of `gapChunkList gap.length buffer_size`; it never raises.
+    one `BytesIO` of `n` copies of the character per entry `n` of `gapChunkList gap.length buffer_size`; it never raises
+    (for `buffer_size = 0` it does: `get_gap_iter_zero_buffer`).
     * A gap character of another length is where source and model part (the model replicates the FIRST byte, `b"N"` if there is
       none; the source repeats the whole byte string): see the two examples below.  `FastaStream.gap_character` is a class
       attribute fixed to `b"N"`, so `write_scaffold` never gets there. -/
-theorem get_gap_iter_is_source (g : Gap) (c : Nat) (bs : Int) (_hbs : 1 ≤ bs) :
+theorem get_gap_iter_is_source (g : Gap) (c : Nat) (bs : Int) (hbs : 1 ≤ bs) :
     Gen.Imp.FastaIndex_get_gap_iter_imp g [c] bs = .ok (C03.modelGapIter bs (.gap g) [c]) :=
-  get_gap_iter_is_source_any_bs g c bs
+  get_gap_iter_is_source_any_bs g c bs (by omega)
 
 example : Gen.Imp.FastaIndex_get_gap_iter_imp { length := 5, gapType := "scaffold".toList } [78] 3
     = .ok [{ data := [78, 78, 78] }, { data := [78, 78] }] := by rfl
@@ -84,8 +96,9 @@ example : Gen.Imp.FastaIndex_get_gap_iter_imp { length := 2, gapType := "scaffol
     ∧ C03.modelGapIter 3 (.gap { length := 2, gapType := "scaffold".toList }) [78, 45] = [{ data := [78, 78] }] := ⟨rfl, by decide +kernel⟩
 example : Gen.Imp.FastaIndex_get_gap_iter_imp { length := 2, gapType := "scaffold".toList } [] 3 = .ok [{ data := [] }]
     ∧ C03.modelGapIter 3 (.gap { length := 2, gapType := "scaffold".toList }) [] = [{ data := [78, 78] }] := ⟨rfl, by decide +kernel⟩
-/-- `bs = 0`: one empty chunk on both sides (Python: `ZeroDivisionError`); `bs = -3`: no chunk at all on both sides (as Python) -/
-example : Gen.Imp.FastaIndex_get_gap_iter_imp { length := 5, gapType := "scaffold".toList } [78] 0 = .ok [{ data := [] }]
+/-- `bs = 0`: `ZeroDivisionError` in the source (as Python), one empty chunk in the model — they DIFFER (FALSE without `bs ≠ 0`);
+    `bs = -3`: no chunk at all on both sides (as Python) -/
+example : Gen.Imp.FastaIndex_get_gap_iter_imp { length := 5, gapType := "scaffold".toList } [78] 0 = .error .zeroDiv
     ∧ C03.modelGapIter 0 (.gap { length := 5, gapType := "scaffold".toList }) [78] = [{ data := [] }] := ⟨rfl, by decide +kernel⟩
 example : Gen.Imp.FastaIndex_get_gap_iter_imp { length := 5, gapType := "scaffold".toList } [78] (-3) = .ok []
     ∧ C03.modelGapIter (-3) (.gap { length := 5, gapType := "scaffold".toList }) [78] = [] := ⟨rfl, by decide +kernel⟩
@@ -94,11 +107,13 @@ example : Gen.Imp.FastaIndex_get_gap_iter_imp { length := 5, gapType := "scaffol
 
 /-- `fwd_chunks` for ANY `self.sequence_bytes`: one call per entry `(chunk_start, chunk_end)` of the model's `fwdChunkList`, in that
     order, results yielded as they are; the first call that raises is the exception (a generator: the chunks before it have been
-    handed out, but the list — and the `for` loop consuming it — has no result). -/
-theorem fwd_chunks_is_source_any_bs (info : FastaInfo) (start stop bs : Int) (sb : FastaInfo → Int → Int → R PyRt.BytesIO) :
+    handed out, but the list — and the `for` loop consuming it — has no result).  For every `buffer_size` but 0. -/
+theorem fwd_chunks_is_source_any_bs (info : FastaInfo) (start stop bs : Int) (sb : FastaInfo → Int → Int → R PyRt.BytesIO)
+    (hbs : bs ≠ 0) :
     Gen.Imp.FastaIndex_fwd_chunks_imp info start stop bs sb = (fwdChunkList start stop bs).mapM (fun b => sb info b.1 b.2) := by
   unfold Gen.Imp.FastaIndex_fwd_chunks_imp fwdChunkList
   dsimp only
+  simp only [PyRt.floorDiv, if_neg hbs, ImpFasta.R_ok_bind]
   rw [ImpFasta.rangeUp_zero, ImpFasta.mapM_map]
   apply ImpFasta.generator_eq_mapM
   · first | rfl | (congr 1; omega)
@@ -106,14 +121,22 @@ theorem fwd_chunks_is_source_any_bs (info : FastaInfo) (start stop bs : Int) (sb
     refine ImpFasta.yield_call_congr (sb info) (fun y => PyRt.Ctl.next (acc ++ [y])) ?_ ?_ <;> simp only [chunkBounds] <;> omega
   · intro ys; rfl
 
+/-- `buffer_size = 0`: `ZeroDivisionError` (`(end - start) // max_length`), as in Python, before `sequence_bytes` is called at all -/
+theorem fwd_chunks_zero_buffer (info : FastaInfo) (start stop : Int) (sb : FastaInfo → Int → Int → R PyRt.BytesIO) :
+    Gen.Imp.FastaIndex_fwd_chunks_imp info start stop 0 sb = .error .zeroDiv := by
+  unfold Gen.Imp.FastaIndex_fwd_chunks_imp
+  simp only [PyRt.floorDiv, if_true]
+  rfl
+
 /-- `rev_chunks` for ANY `self.sequence_bytes` and `revcomp_bytes_io`: one call per entry of `revChunkList` (last chunk first),
-    each result passed through `revcomp_bytes_io` -/
+    each result passed through `revcomp_bytes_io`.  For every `buffer_size` but 0. -/
 theorem rev_chunks_is_source_any_bs (info : FastaInfo) (start stop bs : Int) (sb : FastaInfo → Int → Int → R PyRt.BytesIO)
-    (rc : PyRt.BytesIO → PyRt.BytesIO) :
+    (rc : PyRt.BytesIO → PyRt.BytesIO) (hbs : bs ≠ 0) :
     Gen.Imp.FastaIndex_rev_chunks_imp info start stop bs sb rc =
       (revChunkList start stop bs).mapM (fun b => (sb info b.1 b.2).map rc) := by
   unfold Gen.Imp.FastaIndex_rev_chunks_imp revChunkList
   dsimp only
+  simp only [PyRt.floorDiv, if_neg hbs, ImpFasta.R_ok_bind]
   rw [ImpFasta.rangeDown_neg_one]
   split
   · rfl
@@ -124,6 +147,14 @@ theorem rev_chunks_is_source_any_bs (info : FastaInfo) (start stop bs : Int) (sb
       refine ImpFasta.yield_call_congr' (sb info) rc (fun y => PyRt.Ctl.next (acc ++ [y])) ?_ ?_
         <;> simp only [chunkBounds] <;> omega
     · intro ys; rfl
+
+/-- `buffer_size = 0`: `ZeroDivisionError`, as in Python, before `sequence_bytes` is called at all -/
+theorem rev_chunks_zero_buffer (info : FastaInfo) (start stop : Int) (sb : FastaInfo → Int → Int → R PyRt.BytesIO)
+    (rc : PyRt.BytesIO → PyRt.BytesIO) :
+    Gen.Imp.FastaIndex_rev_chunks_imp info start stop 0 sb rc = .error .zeroDiv := by
+  unfold Gen.Imp.FastaIndex_rev_chunks_imp
+  simp only [PyRt.floorDiv, if_true]
+  rfl
 
 /-- `self.sequence_bytes` as the model has it (`sequenceBytes`: same bytes, same exception), returning a `BytesIO` whose cursor
     stands at `p data`.  In Python the object was only written to, so its cursor is at the end (`p = List.length`); nothing below
@@ -144,19 +175,19 @@ theorem srcReverseComplement_eq : srcReverseComplement = reverseComplement := rf
 theorem srcRevcompBytesIO_eq (c : PyRt.BytesIO) : srcRevcompBytesIO c = { data := reverseComplement c.data, pos := 0 } := rfl
 
 /-- `fwd_chunks` over the model's `sequence_bytes`: the requests are `fwdChunkList`, the results the bytes read (cursor `p`) -/
-theorem fwd_chunks_is_source (file : Bytes) (p : Bytes → Nat) (info : FastaInfo) (start stop bs : Int) (_hbs : 1 ≤ bs) :
+theorem fwd_chunks_is_source (file : Bytes) (p : Bytes → Nat) (info : FastaInfo) (start stop bs : Int) (hbs : 1 ≤ bs) :
     Gen.Imp.FastaIndex_fwd_chunks_imp info start stop bs (srcSequenceBytes file p) =
       (fwdChunkList start stop bs).mapM (fun b =>
         (sequenceBytes file info b.1 b.2).map (fun rl => ({ data := rl.data, pos := p rl.data } : PyRt.BytesIO))) :=
-  fwd_chunks_is_source_any_bs info start stop bs _
+  fwd_chunks_is_source_any_bs info start stop bs _ (by omega)
 
 /-- `rev_chunks` over the model's `sequence_bytes` and the translated `revcomp_bytes_io` ∘ `reverse_complement`: the requests are
     `revChunkList`, the results the reverse complement of the bytes read, in fresh `BytesIO`s (cursor 0 whatever `p`) -/
-theorem rev_chunks_is_source (file : Bytes) (p : Bytes → Nat) (info : FastaInfo) (start stop bs : Int) (_hbs : 1 ≤ bs) :
+theorem rev_chunks_is_source (file : Bytes) (p : Bytes → Nat) (info : FastaInfo) (start stop bs : Int) (hbs : 1 ≤ bs) :
     Gen.Imp.FastaIndex_rev_chunks_imp info start stop bs (srcSequenceBytes file p) srcRevcompBytesIO =
       (revChunkList start stop bs).mapM (fun b =>
         (sequenceBytes file info b.1 b.2).map (fun rl => ({ data := reverseComplement rl.data, pos := 0 } : PyRt.BytesIO))) := by
-  rw [rev_chunks_is_source_any_bs]
+  rw [rev_chunks_is_source_any_bs _ _ _ _ _ _ (by omega)]
   apply ImpFasta.mapM_congr
   intro b _
   simp only [srcSequenceBytes]
@@ -179,6 +210,13 @@ example : Gen.Imp.FastaIndex_rev_chunks_imp default 3 9 3 (fun _ s e => .ok { da
 /-- an exception of `sequence_bytes` (`rpl = 0`: `ZeroDivisionError`) is the result -/
 example : Gen.Imp.FastaIndex_fwd_chunks_imp { length := 8, fileOffset := 3, rpl := 0, mll := 7 } 3 8 3
     (srcSequenceBytes [62, 97, 10, 65, 67, 71, 84, 78, 78, 10, 65, 67, 10] List.length) = .error .zeroDiv := by rfl
+/-- `bs = 0`: `ZeroDivisionError` in the source (as Python) although `sequence_bytes` would succeed; the model's request lists
+    hold the one request `(start, start - 1)` — they DIFFER (FALSE without `bs ≠ 0`); `bs = -3` (a `bs ≠ 0`): equal, no request -/
+example : Gen.Imp.FastaIndex_fwd_chunks_imp default 3 8 0 (fun _ s e => .ok { data := [s.toNat, e.toNat] }) = .error .zeroDiv
+    ∧ Gen.Imp.FastaIndex_rev_chunks_imp default 3 8 0 (fun _ s e => .ok { data := [s.toNat, e.toNat] }) id = .error .zeroDiv
+    ∧ fwdChunkList 3 8 0 = [(3, 2)] ∧ revChunkList 3 8 0 = [(3, 2)] := ⟨rfl, rfl, by decide +kernel, by decide +kernel⟩
+example : Gen.Imp.FastaIndex_fwd_chunks_imp default 3 8 (-3) (fun _ s e => .ok { data := [s.toNat, e.toNat] }) = .ok []
+    ∧ fwdChunkList 3 8 (-3) = [] := ⟨rfl, by decide +kernel⟩
 
 /-! ## 5. `get_sequence_iter`: the composition of the translated pieces -/
 
@@ -195,21 +233,27 @@ def srcSeqIter (file : Bytes) (idx : List (Str × FastaInfo)) (bs : Int) (p : By
       (fun info s e => Gen.Imp.FastaIndex_fwd_chunks_imp info s e bs (srcSequenceBytes file p))
   | .gap _ => .error .attribute
 
-/-- `fai.get_gap_iter(row, gap_character)` from the translated `get_gap_iter` (which never raises: item 3).  On a Fragment row
-    (never passed by `write_scaffold`): no chunks, as `C03.modelGapIter` — Python would go on with `frag.length`; the value is
-    irrelevant for every statement below, the writer does not call it. -/
+/-- `fai.get_gap_iter(row, gap_character)` from the translated `get_gap_iter` (which never raises for `bs ≠ 0`: item 3).  On a
+    Fragment row (never passed by `write_scaffold`): no chunks, as `C03.modelGapIter` — Python would go on with `frag.length`; the
+    value is irrelevant for every statement below, the writer does not call it.
+    `bs = 0`: the translated `get_gap_iter` raises `ZeroDivisionError` (`get_gap_iter_zero_buffer`); the translated writer takes
+    its gap iterator as a TOTAL function (`Row → List Nat → List BytesIO`), so that exception cannot be passed on here (`okOr`
+    gives no chunks).  Every statement below about `srcGapIter` therefore carries `bs ≠ 0` (or `1 ≤ bs`). -/
 def srcGapIter (bs : Int) (row : Row) (gc : List Nat) : List PyRt.BytesIO :=
   match row with
   | .gap g => okOr [] (Gen.Imp.FastaIndex_get_gap_iter_imp g gc bs)
   | .frag _ => []
 
-/-- for every `buffer_size` and every cursor convention `p`: same exception, same chunk CONTENTS in the same order -/
+/-- for every `buffer_size` but 0 and every cursor convention `p`: same exception, same chunk CONTENTS in the same order.
+    FALSE for `bs = 0` (example below): the source raises `ZeroDivisionError`, the model yields one chunk. -/
 theorem get_sequence_iter_is_source_any_bs (file : Bytes) (idx : List (Str × FastaInfo)) (bs : Int) (p : Bytes → Nat)
-    (f : Fragment) :
+    (f : Fragment) (hbs : bs ≠ 0) :
     (srcSeqIter file idx bs p (.frag f)).map (List.map (·.data))
       = (C03.modelSeqIter file idx bs (.frag f)).map (List.map (·.data)) := by
+  have hfwd := fun info s e sb => fwd_chunks_is_source_any_bs info s e bs sb hbs
+  have hrev := fun info s e sb rc => rev_chunks_is_source_any_bs info s e bs sb rc hbs
   simp only [srcSeqIter, Gen.Imp.FastaIndex_get_sequence_iter, C03.modelSeqIter, PyRt.asFrag, get_info_is_source,
-    fwd_chunks_is_source_any_bs, rev_chunks_is_source_any_bs, ImpFasta.R_ok_bind, ImpFasta.R_bind_ok]
+    hfwd, hrev, ImpFasta.R_ok_bind, ImpFasta.R_bind_ok]
   cases getInfo idx f.name with
   | error e => rfl
   | ok info =>
@@ -234,19 +278,21 @@ theorem get_sequence_iter_is_source_any_bs (file : Bytes) (idx : List (Str × Fa
     (example below); on the minus strand `revcomp_bytes_io` makes fresh objects with cursor 0 and the objects are equal.
     The consumer (`write_scaffold`) seeks to 0 first: `write_scaffold_with_source_iterators`. -/
 theorem get_sequence_iter_is_source (file : Bytes) (idx : List (Str × FastaInfo)) (bs : Int) (p : Bytes → Nat)
-    (f : Fragment) (_hbs : 1 ≤ bs) :
+    (f : Fragment) (hbs : 1 ≤ bs) :
     (srcSeqIter file idx bs p (.frag f)).map (List.map (·.data))
       = (C03.modelSeqIter file idx bs (.frag f)).map (List.map (·.data)) :=
-  get_sequence_iter_is_source_any_bs file idx bs p f
+  get_sequence_iter_is_source_any_bs file idx bs p f (by omega)
 
-/-- with cursor 0 (the model's convention) the two iterators are EQUAL, on every row -/
-theorem get_sequence_iter_is_source_pos0 (file : Bytes) (idx : List (Str × FastaInfo)) (bs : Int) (row : Row) :
+/-- with cursor 0 (the model's convention) the two iterators are EQUAL, on every row — for every `buffer_size` but 0 -/
+theorem get_sequence_iter_is_source_pos0 (file : Bytes) (idx : List (Str × FastaInfo)) (bs : Int) (row : Row) (hbs : bs ≠ 0) :
     srcSeqIter file idx bs (fun _ => 0) row = C03.modelSeqIter file idx bs row := by
   cases row with
   | gap g => rfl
   | frag f =>
+    have hfwd := fun info s e sb => fwd_chunks_is_source_any_bs info s e bs sb hbs
+    have hrev := fun info s e sb rc => rev_chunks_is_source_any_bs info s e bs sb rc hbs
     simp only [srcSeqIter, Gen.Imp.FastaIndex_get_sequence_iter, C03.modelSeqIter, PyRt.asFrag, get_info_is_source,
-      fwd_chunks_is_source_any_bs, rev_chunks_is_source_any_bs, ImpFasta.R_ok_bind, ImpFasta.R_bind_ok]
+      hfwd, hrev, ImpFasta.R_ok_bind, ImpFasta.R_bind_ok]
     cases getInfo idx f.name with
     | error e => rfl
     | ok info =>
@@ -278,19 +324,31 @@ example : srcSeqIter [62, 97, 10, 65, 67, 71, 84, 78, 78, 10, 65, 67, 10]
       = .ok [{ data := [65, 67, 71], pos := 0 }, { data := [84], pos := 0 }] := ⟨rfl, rfl⟩
 example : srcSeqIter [] [] 3 List.length
     (.frag { oid := 0, name := "zz".toList, start := 1, stop := 4, strand := 1, tags := [] }) = .error .value := by rfl
+/-- `bs = 0`: the source raises `ZeroDivisionError` (as Python), the model reads residues 1..0 with `sequence_bytes` and yields what
+    that returns (here the whole first line) — the two theorems above are FALSE without `bs ≠ 0` -/
+example : srcSeqIter [62, 97, 10, 65, 67, 71, 84, 78, 78, 10, 65, 67, 10]
+      [("a".toList, { length := 8, fileOffset := 3, rpl := 6, mll := 7 })] 0 (fun _ => 0)
+      (.frag { oid := 0, name := "a".toList, start := 1, stop := 4, strand := 1, tags := [] }) = .error .zeroDiv
+    ∧ C03.modelSeqIter [62, 97, 10, 65, 67, 71, 84, 78, 78, 10, 65, 67, 10]
+      [("a".toList, { length := 8, fileOffset := 3, rpl := 6, mll := 7 })] 0
+      (.frag { oid := 0, name := "a".toList, start := 1, stop := 4, strand := 1, tags := [] })
+      = .ok [{ data := [65, 67, 71, 84, 78, 78], pos := 0 }] := ⟨rfl, rfl⟩
 
 /-! ## 6. end to end -/
 
-/-- the source's gap iterator, on the gap character `write_scaffold` passes, is the model's on every row -/
-theorem srcGapIter_eq (bs : Int) (row : Row) : srcGapIter bs row Gen.gapCharacter = C03.modelGapIter bs row Gen.gapCharacter := by
+/-- the source's gap iterator, on the gap character `write_scaffold` passes, is the model's on every row (`bs ≠ 0`; for `bs = 0`
+    see `srcGapIter`: no chunks, the model one empty chunk) -/
+theorem srcGapIter_eq (bs : Int) (row : Row) (hbs : bs ≠ 0) :
+    srcGapIter bs row Gen.gapCharacter = C03.modelGapIter bs row Gen.gapCharacter := by
   cases row with
   | frag f => rfl
   | gap g =>
-    simp only [srcGapIter, show Gen.gapCharacter = [78] from rfl, get_gap_iter_is_source_any_bs, okOr]
+    simp only [srcGapIter, show Gen.gapCharacter = [78] from rfl, get_gap_iter_is_source_any_bs g 78 bs hbs, okOr]
 
-/-- for every `buffer_size` -/
+/-- for every `buffer_size` but 0 (FALSE for `bs = 0`, example below: the source's `get_sequence_iter` raises
+    `ZeroDivisionError` on the first Fragment row, the model writes a file) -/
 theorem write_scaffold_with_source_iterators_any_bs (file : Bytes) (idx : List (Str × FastaInfo)) (bs w : Int) (p : Bytes → Nat)
-    (sc : Scaffold) (fuel : Nat)
+    (sc : Scaffold) (fuel : Nat) (hbs : bs ≠ 0)
     (hfuel : ∀ row ∈ sc.rows,
       (∀ c ∈ C03.modelGapIter bs row Gen.gapCharacter, c.data.length < fuel) ∧
       (∀ cs, C03.modelSeqIter file idx bs row = .ok cs → ∀ c ∈ cs, c.data.length < fuel)) :
@@ -300,10 +358,10 @@ theorem write_scaffold_with_source_iterators_any_bs (file : Bytes) (idx : List (
   apply ImpFasta.write_scaffold_data_congr
   · intro row _
     cases row with
-    | gap g => simp only [ImpStream.rowChunks, Row.isGap, if_true, srcGapIter_eq]
+    | gap g => simp only [ImpStream.rowChunks, Row.isGap, if_true, srcGapIter_eq bs _ hbs]
     | frag f =>
       simp only [ImpStream.rowChunks, Row.isGap, Bool.false_eq_true, if_false, ImpFasta.dataOf]
-      exact get_sequence_iter_is_source_any_bs file idx bs p f
+      exact get_sequence_iter_is_source_any_bs file idx bs p f hbs
   · intro row hrow cs hcs
     cases row with
     | gap g =>
@@ -322,13 +380,13 @@ theorem write_scaffold_with_source_iterators_any_bs (file : Bytes) (idx : List (
     bytes (see there why it is needed and tight); `write_scaffold_with_source_iterators_of_rowOK` below replaces it by
     `buffer_size < fuel` for well-formed input. -/
 theorem write_scaffold_with_source_iterators (file : Bytes) (idx : List (Str × FastaInfo)) (bs w : Int) (p : Bytes → Nat)
-    (sc : Scaffold) (fuel : Nat) (_hbs : 1 ≤ bs)
+    (sc : Scaffold) (fuel : Nat) (hbs : 1 ≤ bs)
     (hfuel : ∀ row ∈ sc.rows,
       (∀ c ∈ C03.modelGapIter bs row Gen.gapCharacter, c.data.length < fuel) ∧
       (∀ cs, C03.modelSeqIter file idx bs row = .ok cs → ∀ c ∈ cs, c.data.length < fuel)) :
     Gen.Imp.FastaStream_write_scaffold fuel sc w Gen.gapCharacter (srcGapIter bs) (srcSeqIter file idx bs p)
       = (streamScaffold file idx bs w sc).map (·.out) :=
-  write_scaffold_with_source_iterators_any_bs file idx bs w p sc fuel hfuel
+  write_scaffold_with_source_iterators_any_bs file idx bs w p sc fuel (by omega) hfuel
 
 /-- the translated writer over the translated iterators, run: `>a\nACGTNN\nAC\n`; scaffold `s1` = a[1..4] forward, a gap of 5,
     a[3..8] on the minus strand; `buffer_size = 3`, line length 4, fuel 4, cursors where Python leaves them -/
@@ -341,6 +399,23 @@ example : Gen.Imp.FastaStream_write_scaffold 4
     (srcSeqIter [62, 97, 10, 65, 67, 71, 84, 78, 78, 10, 65, 67, 10]
       [("a".toList, { length := 8, fileOffset := 3, rpl := 6, mll := 7 })] 3 List.length)
     = .ok (strToBytes ">s1\nACGT\nNNNN\nNGTN\nNAC\n".toList) := by rfl
+
+/-- `buffer_size = 0` (excluded above): the translated writer over the translated iterators ends in `ZeroDivisionError` on the
+    first Fragment row, as Python does; the model (`streamScaffold`, total `pyDiv`) writes a file — FALSE without `bs ≠ 0` -/
+example : Gen.Imp.FastaStream_write_scaffold 7
+      { name := "s1".toList, rows := [
+        .frag { oid := 0, name := "a".toList, start := 1, stop := 4, strand := 1, tags := [] },
+        .gap { length := 5, gapType := "scaffold".toList }] }
+      4 Gen.gapCharacter (srcGapIter 0)
+      (srcSeqIter [62, 97, 10, 65, 67, 71, 84, 78, 78, 10, 65, 67, 10]
+        [("a".toList, { length := 8, fileOffset := 3, rpl := 6, mll := 7 })] 0 List.length)
+      = .error .zeroDiv
+    ∧ (streamScaffold [62, 97, 10, 65, 67, 71, 84, 78, 78, 10, 65, 67, 10]
+        [("a".toList, { length := 8, fileOffset := 3, rpl := 6, mll := 7 })] 0 4
+        { name := "s1".toList, rows := [
+          .frag { oid := 0, name := "a".toList, start := 1, stop := 4, strand := 1, tags := [] },
+          .gap { length := 5, gapType := "scaffold".toList }] }).map (·.out)
+      = .ok (strToBytes ">s1\nACGT\nNN\n".toList) := ⟨rfl, rfl⟩
 
 /-- `hfuel` is satisfiable there (all chunks have at most 3 bytes) -/
 example : ∀ row ∈ [Row.frag { oid := 0, name := "a".toList, start := 1, stop := 4, strand := 1, tags := [] },
@@ -375,7 +450,7 @@ theorem write_scaffold_with_source_iterators_of_rowOK (file : Bytes) (idx : List
     (hok : ∀ r ∈ sc.rows, StreamProofs.RowOK file idx resOf r) (hfuel : bs.toNat < fuel) :
     Gen.Imp.FastaStream_write_scaffold fuel sc w Gen.gapCharacter (srcGapIter bs) (srcSeqIter file idx bs p)
       = (streamScaffold file idx bs w sc).map (·.out) := by
-  apply write_scaffold_with_source_iterators_any_bs
+  apply write_scaffold_with_source_iterators_any_bs (hbs := by omega)
   intro row hrow
   constructor
   · intro c hc
